@@ -31,6 +31,8 @@ pub enum Op {
   ImportInto { from: u16, to: u16 },
   /// evaluate all 256 tags on handle h
   Sweep { h: u16 },
+  /// puncture a whole block of tags on handle h: the first `count` tags of a C10 order family
+  PunctureBlock { h: u16, kind: u8, start: u8, count: u8 },
   /// a fresh independently keyed server with the same tag set
   NewServer,
 }
@@ -62,6 +64,7 @@ fn strat(tier: Tier) -> BoxedStrategy<Case> {
     2 => (any::<u16>(), any::<u16>()).prop_map(|(from, to)| Op::ImportInto { from, to }),
     1 => any::<u16>().prop_map(|h| Op::Sweep { h }),
     1 => Just(Op::NewServer),
+    1 => (any::<u16>(), 0u8..6, any::<u8>(), prop_oneof![2 => 2u8..40, 1 => 40u8..=255]).prop_map(|(h, kind, start, count)| Op::PunctureBlock { h, kind, start, count }),
   ];
   (tag_set(10), tag_set(5), vec(op, 1..n)).prop_map(|(mds, other_mds, ops)| Case { mds, other_mds, ops }).boxed()
 }
@@ -276,6 +279,30 @@ pub fn oracle(c: &Case, st: &mut Stats) -> Result<(), String> {
           eval_check(&handles[hi], &mut model, md, 2, md % 5 == 0, &points, &ctx, st)?;
         }
         st.class("op=sweep");
+      }
+      Op::PunctureBlock { h, kind, start, count } => {
+        let hi = idx(*h, handles.len());
+        let lin = handles[hi].lineage;
+        // keep at least one registered tag alive so that "answers never change" stays observable
+        let keep: Option<u8> = model.registered[lin].iter().find(|t| !handles[hi].punctured.contains(t)).cloned();
+        for x in crate::props::c10::order_family(*kind, *start).into_iter().take(*count as usize) {
+          if Some(x) == keep {
+            continue;
+          }
+          let first_time = !handles[hi].punctured.contains(&x);
+          let r = handles[hi].server.puncture(x);
+          if model.registered[lin].contains(&x) || r.is_ok() {
+            if first_time && r.is_err() {
+              return Err(format!("{ctx}: first puncture of tag {x} failed"));
+            }
+            handles[hi].punctured.insert(x);
+          }
+        }
+        saw_puncture = true;
+        for md in model.registered[lin].clone() {
+          eval_check(&handles[hi], &mut model, md, 0, false, &points, &ctx, st)?;
+        }
+        st.class("op=puncture-block");
       }
       Op::NewServer => {
         let s = Server::new(c.mds.clone()).map_err(|e| e.to_string())?;
